@@ -124,7 +124,7 @@ def apply_value_modifier(mod, val, field, applied):
             orig = text
             if pre and not (orig[:2] == ".*" or orig[:1] == "^"):
                 text = ".*" + text
-            if post and not (orig[-2:] == ".*" or orig[-1:] == "$"):
+            if post and not (_unescaped_suffix(orig, ".*") or _unescaped_suffix(orig, "$")):
                 text = text + ".*"
             return ("RE", text, val[2])
         if k == "FR":
@@ -230,6 +230,14 @@ def apply_value_modifier(mod, val, field, applied):
 LIST_MODS = ("all", "neq")
 KNOWN = set(("contains startswith endswith cased re i ignorecase m multiline s dotall cidr lt lte gt gte minute hour day week month year "
              "fieldref exists expand windash base64 base64offset wide utf16 utf16be all neq").split())
+
+
+def _unescaped_suffix(text, suffix):
+    """The regular expression ends with the wildcard `.*` / the anchor `$` - not with an escaped dot or dollar."""
+    if not text.endswith(suffix):
+        return False
+    head = text[: -len(suffix)]
+    return (len(head) - len(head.rstrip("\\"))) % 2 == 0
 
 
 def apply_chain(field, mods, plain_values):
